@@ -225,6 +225,10 @@ func (cl *Clause) setTag(tag string) {
 		if ok {
 			cl.Props = props
 			cl.Tag = strings.TrimSpace(tag[j+1:])
+			// the name is the first word; anything after it is a remark for the reader
+			if f := strings.Fields(cl.Tag); len(f) > 0 {
+				cl.Tag = f[0]
+			}
 			return
 		}
 	}
